@@ -47,6 +47,7 @@ LEVEL = {
 LEVEL["decided"] += " (R03.7) an awaitified callable is called and its result awaited under the same handlers and cleanups (a synchronous callable fails at the call, an asynchronous one at the await); (R03.8) any_iter's flavour table (R19.2, shared); (R03.9) awaitify wraps user callables only, never a plain library function whose result is a user value; the synchronous-iterable wrapper is decided as a table."
 LEVEL["decided"] += ' (R03.10) no attribute a user callable need not have is read unconditionally; R03.2 also covers truth tests of the elements of a *iterables container.'
 LEVEL["decided"] += " (R03.11) no __aexit__ hands back what the source's aclose() returned (R06.3, shared); (R03.12) the truth value of a callable argument is never taken; (R03.13) awaitify's wrappers pass *args and **kwargs on unchanged."
+LEVEL["decided"] += " (R03.14) a user's callable is never handed to a synchronous higher-order function of the standard library; (R03.15) the internal borrow wraps every flavour of source alike (R07.4, shared); R03.2 also covers isinstance / len tests on the elements of a *iterables parameter."
 
 # raw calls of user objects that are correct by documented contract (unit -> reason)
 BY_CONTRACT = {
